@@ -45,10 +45,16 @@ pub enum Step {
     Socket,
     /// sendto (no address) of 4 bytes: goes through the zero-copy send, which posts TWO completions
     Sendto(usize),
+    /// the same on a TCP connection whose peer does not read (its receive buffer is full, a backlog sits
+    /// in the send queue): the send is queued at once, its buffer-release notification only comes when
+    /// the peer drains - i.e. possibly while the sender's NEXT call is in flight
+    SendtoTcp,
 }
 
 #[derive(Clone, Copy, Debug, PartialEq, Eq, Hash)]
 pub enum Ev {
+    /// the peer of the TCP connection reads everything that is waiting for it
+    DrainTcp,
     Feed(usize),
     /// two seconds of virtual time pass (the timed socket's limit is one second)
     Idle,
@@ -66,6 +72,7 @@ impl Step {
             Step::MkdirExists => "mkdirat(/tmp)".into(),
             Step::Socket => "socket()".into(),
             Step::Sendto(s) => format!("sendto({})", SL[s]),
+            Step::SendtoTcp => "sendto(tcp connection with an unread backlog)".into(),
         }
     }
     fn from_s(s: &str) -> Option<Step> {
@@ -77,6 +84,7 @@ impl Step {
             "shutdown(unopened descriptor)" => return Some(Step::ShutdownBad),
             "mkdirat(/tmp)" => return Some(Step::MkdirExists),
             "socket()" => return Some(Step::Socket),
+            "sendto(tcp connection with an unread backlog)" => return Some(Step::SendtoTcp),
             _ => {}
         }
         if let Some(r) = s.strip_prefix("read(") {
@@ -95,6 +103,7 @@ impl Step {
 impl Ev {
     fn to_s(self) -> String {
         match self {
+            Ev::DrainTcp => "tcp-peer-drains".into(),
             Ev::Feed(s) => format!("feed({})", SL[s]),
             Ev::Idle => "let-2s-pass".into(),
         }
@@ -102,6 +111,9 @@ impl Ev {
     fn from_s(s: &str) -> Option<Ev> {
         if s == "let-2s-pass" {
             return Some(Ev::Idle);
+        }
+        if s == "tcp-peer-drains" {
+            return Some(Ev::DrainTcp);
         }
         let r = s.strip_prefix("feed(")?.trim_end_matches(')');
         Some(Ev::Feed(SL.iter().position(|n| *n == r)?))
@@ -207,6 +219,41 @@ pub fn run_case(c: &Case) -> (Vec<Viol>, BTreeMap<String, u64>) {
         assert_eq!(0, libc::setsockopt(fds[2], libc::SOL_SOCKET, libc::SO_RCVTIMEO, std::ptr::from_ref(&tv).cast(), size_of::<libc::timeval>() as u32));
         libc::close(peers[3]);
     }
+    // a TCP connection over loopback for the delayed-notification step (only when a program wants it)
+    let (mut tcp_fd, mut tcp_peer) = (-1, -1);
+    if c.progs.iter().flatten().any(|x| *x == Step::SendtoTcp) {
+        unsafe {
+            let l = libc::socket(libc::AF_INET, libc::SOCK_STREAM, 0);
+            let small: libc::c_int = 2048;
+            libc::setsockopt(l, libc::SOL_SOCKET, libc::SO_RCVBUF, std::ptr::from_ref(&small).cast(), 4);
+            let mut addr: libc::sockaddr_in = std::mem::zeroed();
+            addr.sin_family = libc::AF_INET as u16;
+            addr.sin_addr.s_addr = u32::from_be_bytes([127, 0, 0, 1]).to_be();
+            assert_eq!(0, libc::bind(l, std::ptr::from_ref(&addr).cast(), size_of::<libc::sockaddr_in>() as u32));
+            assert_eq!(0, libc::listen(l, 1));
+            let mut len = size_of::<libc::sockaddr_in>() as u32;
+            assert_eq!(0, libc::getsockname(l, std::ptr::from_mut(&mut addr).cast(), &mut len));
+            tcp_fd = libc::socket(libc::AF_INET, libc::SOCK_STREAM, 0);
+            let big: libc::c_int = 512 * 1024;
+            libc::setsockopt(tcp_fd, libc::SOL_SOCKET, libc::SO_SNDBUF, std::ptr::from_ref(&big).cast(), 4);
+            assert_eq!(0, libc::connect(tcp_fd, std::ptr::from_ref(&addr).cast(), size_of::<libc::sockaddr_in>() as u32));
+            tcp_peer = libc::accept(l, std::ptr::null_mut(), std::ptr::null_mut());
+            assert!(tcp_peer >= 0);
+            libc::close(l);
+            // the backlog the peer does not read
+            let junk = [0x33u8; 4096];
+            let mut queued = 0usize;
+            while queued < 96 * 1024 {
+                let r = libc::send(tcp_fd, junk.as_ptr().cast(), junk.len(), libc::MSG_DONTWAIT);
+                if r <= 0 {
+                    break;
+                }
+                queued += r as usize;
+            }
+            let fl = libc::fcntl(tcp_peer, libc::F_GETFL);
+            libc::fcntl(tcp_peer, libc::F_SETFL, fl | libc::O_NONBLOCK);
+        }
+    }
     let n = c.progs.len();
     ST.with(|s| *s.borrow_mut() = St { cur: vec![None; n], finished: vec![false; n], ..St::default() });
     let mut lp = SyncLoop::new(&format!("c27-loop-{dg:x}"), 128 * 1024, 0, 4, 0).expect("loop");
@@ -235,6 +282,10 @@ pub fn run_case(c: &Case) -> (Vec<Viol>, BTreeMap<String, u64>) {
                         Step::Sendto(s) => {
                             buf[..4].copy_from_slice(&out_bytes(j, i));
                             sc::sendto(None, fds[s], buf.as_ptr().cast(), 4, libc::MSG_NOSIGNAL, std::ptr::null(), 0)
+                        }
+                        Step::SendtoTcp => {
+                            buf[..4].copy_from_slice(&out_bytes(j, i));
+                            sc::sendto(None, tcp_fd, buf.as_ptr().cast(), 4, libc::MSG_NOSIGNAL, std::ptr::null(), 0)
                         }
                         Step::FsyncSock => sc::fsync(None, fds[0]) as isize,
                         Step::ShutdownBad => sc::shutdown(None, bad_fd, libc::SHUT_RDWR) as isize,
@@ -324,6 +375,21 @@ pub fn run_case(c: &Case) -> (Vec<Viol>, BTreeMap<String, u64>) {
                 let _ = open_coroutine_core::verif::clock_advance(Duration::from_secs(2));
                 idles.push(tick());
             }
+            Ev::DrainTcp => {
+                // read until nothing has arrived for a while (the backlog trickles in as the window opens)
+                let mut b = [0u8; 8192];
+                let t = Instant::now();
+                let mut last = Instant::now();
+                while t.elapsed() < Duration::from_millis(300) && last.elapsed() < Duration::from_millis(20) {
+                    let r = unsafe { libc::recv(tcp_peer, b.as_mut_ptr().cast(), b.len(), 0) };
+                    if r > 0 {
+                        last = Instant::now();
+                    } else {
+                        std::thread::sleep(Duration::from_micros(200));
+                    }
+                }
+                let _ = tick();
+            }
         }
         stuck = !settle(&mut lp, &fed, &idles);
     }
@@ -354,6 +420,10 @@ pub fn run_case(c: &Case) -> (Vec<Viol>, BTreeMap<String, u64>) {
         }
         for s in 0..4 {
             libc::close(fds[s]);
+        }
+        if tcp_fd >= 0 {
+            libc::close(tcp_fd);
+            libc::close(tcp_peer);
         }
         for s in 0..3 {
             libc::close(peers[s]);
@@ -458,6 +528,13 @@ pub fn run_case(c: &Case) -> (Vec<Viol>, BTreeMap<String, u64>) {
                     w("error_completions_checked", 1);
                 }
             }
+            Step::SendtoTcp => {
+                if call.ret != 4 {
+                    bad("own-result", format!("sendto-tcp:{ctx}"), format!("returned {} (errno {}), its own completion is 4", call.ret, call.errno));
+                } else {
+                    w("zero_copy_sends_queued_on_tcp", 1);
+                }
+            }
             Step::Socket => {
                 if call.ret != 1 {
                     bad("own-result", format!("socket:{ctx}"), format!("did not return a descriptor (errno {})", call.errno));
@@ -537,15 +614,20 @@ pub fn bounds(tier: &str) -> (usize, usize, usize) {
 
 pub fn cases(tier: &str) -> Vec<Case> {
     let (l0, l1, e) = bounds(tier);
-    let steps = [Step::Read(0), Step::Read(1), Step::Read(2), Step::Read(3), Step::Write(0), Step::Write(1), Step::ReadBad, Step::SendClosed, Step::FsyncSock, Step::ShutdownBad, Step::MkdirExists, Step::Socket, Step::Sendto(0)];
+    let steps = [Step::Read(0), Step::Read(1), Step::Read(2), Step::Read(3), Step::Sendto(0), Step::SendtoTcp, Step::Write(0), Step::Write(1), Step::ReadBad, Step::SendClosed, Step::FsyncSock, Step::ShutdownBad, Step::MkdirExists, Step::Socket];
     // the second coroutine: something to be in flight next to the first one's calls
-    let steps1 = [Step::Read(1), Step::Write(1), Step::ReadBad, Step::FsyncSock, Step::Read(2)];
+    let steps1: &[Step] = if tier == "thorough" { &[Step::Read(1), Step::Write(1), Step::ReadBad, Step::FsyncSock, Step::Read(2)] } else { &[Step::Read(1), Step::ReadBad, Step::Read(2)] };
     let p0 = seqs(&steps, 1, l0);
     let mut p1: Vec<Vec<Step>> = vec![vec![]];
-    p1.extend(seqs(&steps1, 1, l1));
+    p1.extend(seqs(steps1, 1, l1));
+    let waits = |x: &Step| matches!(x, Step::Read(_) | Step::Sendto(_) | Step::SendtoTcp);
     let mut v = Vec::new();
     for a in &p0 {
         for b in &p1 {
+            // quick tier: a second coroutine only next to a program in which some call stays in flight
+            if tier != "thorough" && !b.is_empty() && !a.iter().any(waits) {
+                continue;
+            }
             let progs: Vec<Vec<Step>> = if b.is_empty() { vec![a.clone()] } else { vec![a.clone(), b.clone()] };
             let mut alpha: Vec<Ev> = Vec::new();
             for s in 0..3 {
@@ -555,6 +637,9 @@ pub fn cases(tier: &str) -> Vec<Case> {
             }
             if progs.iter().flatten().any(|x| *x == Step::Read(2)) {
                 alpha.push(Ev::Idle);
+            }
+            if progs.iter().flatten().any(|x| *x == Step::SendtoTcp) {
+                alpha.push(Ev::DrainTcp);
             }
             // two coroutines: one driver event less
             let e = if progs.len() > 1 { e.saturating_sub(1) } else { e };
@@ -579,9 +664,9 @@ pub fn run(tier: &str, rep: &mut Report) {
     let cs = cases(tier);
     let (l0, l1, e) = bounds(tier);
     rep.bounds = json!({"descriptors": {"A,B": "stream sockets", "T": "stream socket with SO_RCVTIMEO = 1 s", "P": "stream socket whose peer is closed"},
-        "program_steps": ["read(A|B|T|P) of 4 bytes", "write(A|B) of 4 bytes", "read(unopened descriptor) -> -EBADF", "send(P, MSG_NOSIGNAL) -> -EPIPE", "fsync(A) -> -EINVAL", "shutdown(unopened descriptor) -> -EBADF", "mkdirat(/tmp) -> -EEXIST", "socket() -> a descriptor", "sendto(A) of 4 bytes (zero-copy send: two completions)"],
-        "second_coroutine_steps": ["read(B)", "write(B)", "read(unopened descriptor)", "fsync(A)", "read(T)"],
-        "steps_of_coroutine_0": l0, "steps_of_coroutine_1": l1, "driver_events": ["feed(slot): 4 more bytes", "let-2s-pass"], "driver_sequence_length": format!("0..={e} (one coroutine), 0..={} (two)", e.saturating_sub(1)), "cases": cs.len(),
+        "program_steps": ["read(A|B|T|P) of 4 bytes", "write(A|B) of 4 bytes", "read(unopened descriptor) -> -EBADF", "send(P, MSG_NOSIGNAL) -> -EPIPE", "fsync(A) -> -EINVAL", "shutdown(unopened descriptor) -> -EBADF", "mkdirat(/tmp) -> -EEXIST", "socket() -> a descriptor", "sendto(A) of 4 bytes (zero-copy send: two completions)", "sendto on a TCP connection with an unread backlog (the notification comes when the peer drains)"],
+        "second_coroutine_steps": if tier == "thorough" { json!(["read(B)", "write(B)", "read(unopened descriptor)", "fsync(A)", "read(T)"]) } else { json!(["read(B)", "read(unopened descriptor)", "read(T)", "(only next to a first program with a read or a zero-copy send in it)"]) },
+        "steps_of_coroutine_0": l0, "steps_of_coroutine_1": l1, "driver_events": ["feed(slot): 4 more bytes", "let-2s-pass", "tcp-peer-drains"], "driver_sequence_length": format!("0..={e} (one coroutine), 0..={} (two)", e.saturating_sub(1)), "cases": cs.len(),
         "note": "completions arrive from the kernel's SQ-poll thread: after every driver event the loop is turned until every call whose completion is due has returned (cap 10 s of real time per event)"});
     rep.require(&["reads_that_got_their_own_bytes", "error_completions_checked", "cases_with_two_coroutines"]);
     for c in cs.iter().step_by((cs.len() / 4).max(1)).take(4) {
@@ -590,8 +675,8 @@ pub fn run(tier: &str, rep: &mut Report) {
     // one case per child (the ring and its kernel poll thread go away with the child) and fewer
     // children than cores, the kernel's SQ-poll threads need some too
     let dflt = RunCfg::default();
-    let cfg = RunCfg { hang_after: Duration::from_millis(40_000), parallel: (dflt.parallel / 2).max(1), ..dflt };
-    let budget = Budget::secs(if tier == "thorough" { 2400 } else { 50 });
+    let cfg = RunCfg { hang_after: Duration::from_millis(40_000), parallel: (dflt.parallel / 2).max(1), racy_confirm: 6, ..dflt };
+    let budget = Budget::secs(if tier == "thorough" { 2400 } else { 80 });
     // is there an io_uring to talk to at all? (otherwise every case would die in the harness' setup)
     let probe = crate::runner::run_one(&cfg, |em| {
         std::panic::set_hook(Box::new(|_| {}));
